@@ -12,14 +12,16 @@ Record ranges_good (size chunk offset overlap : Z) (align : bool) (rs : list (Z 
            end;
   g_consec : consecutive_ok overlap rs = true;
   g_align : align = true -> Forall (fun r => fst r mod (chunk - overlap) = 0) (tl rs);
-  g_cover : forall j, offset <= j < offset + size -> covered rs j = true
+  g_cover : forall j, offset <= j < offset + size -> covered rs j = true;
+  g_minimal : Forall (fun r => snd r < offset + size) (removelast rs);
+  g_nonempty : 0 < size -> Forall (fun r => fst r < snd r) rs
 }.
 
 Lemma ranges_good_ok size chunk offset overlap align rs :
   0 <= size -> ranges_good size chunk offset overlap align rs ->
   ranges_ok size chunk offset overlap align rs = true.
 Proof.
-  intros Hs [E N C A V]. unfold ranges_ok.
+  intros Hs [E N C A V M NE]. unfold ranges_ok.
   repeat (apply andb_true_iff; split).
   - apply forallb_forall. intros r Hr. rewrite Forall_forall in E. destruct (E r Hr) as [? [? [? ?]]].
     repeat (apply andb_true_iff; split); apply Z.leb_le; assumption.
@@ -31,6 +33,10 @@ Proof.
     specialize (A eq_refl). rewrite Forall_forall in A. apply Z.eqb_eq. apply A. exact Hr.
   - apply forallb_forall. intros j Hj. apply in_map_iff in Hj as [k [<- Hk]].
     apply in_seq in Hk. apply V. lia.
+  - apply forallb_forall. intros r Hr. rewrite Forall_forall in M. apply Z.ltb_lt. apply M. exact Hr.
+  - destruct (size =? 0) eqn:E0; [reflexivity|]. apply Z.eqb_neq in E0. cbn [orb].
+    apply forallb_forall. intros r Hr. specialize (NE ltac:(lia)). rewrite Forall_forall in NE.
+    apply Z.ltb_lt. apply NE. exact Hr.
 Qed.
 
 (* ---- the range loop ---------------------------------------------------------- *)
@@ -45,7 +51,8 @@ Section Loop.
     /\ Forall (fun r => i <= fst r /\ fst r < snd r /\ snd r <= stop
                         /\ snd r - fst r <= chunk /\ (fst r - i) mod step = 0) rs
     /\ consecutive_ok (chunk - step) rs = true
-    /\ (forall j, i <= j < stop -> covered rs j = true).
+    /\ (forall j, i <= j < stop -> covered rs j = true)
+    /\ Forall (fun r => snd r < stop) (removelast rs).
 
   Lemma covered_cons r rs j : covered (r :: rs) j = ((fst r <=? j) && (j <? snd r)) || covered rs j.
   Proof. reflexivity. Qed.
@@ -71,9 +78,10 @@ Section Loop.
       + intros j Hj. rewrite covered_cons. cbn [fst snd].
         assert ((i <=? j) = true) as -> by (apply Z.leb_le; lia).
         assert ((j <? stop) = true) as -> by (apply Z.ltb_lt; lia). reflexivity.
+      + cbn [removelast]. constructor.
     - rewrite Z.geb_leb in Ege. apply Z.leb_gt in Ege.
       rewrite Z.min_l by lia.
-      destruct (IH (i + step)) as [rest [Hrest [G1 [G2 [G3 [G4 G5]]]]]]; [lia|].
+      destruct (IH (i + step)) as [rest [Hrest [G1 [G2 [G3 [G4 [G5 G6]]]]]]]; [lia|].
       rewrite Hrest. exists ((i, i + chunk) :: rest). split; [reflexivity|].
       destruct (G2 ltac:(lia)) as [e' [rest' [Er Hlast]]].
       unfold loop_good. repeat split.
@@ -93,6 +101,9 @@ Section Loop.
         * assert ((i <=? j) = true) as -> by (apply Z.leb_le; lia).
           assert ((j <? i + chunk) = true) as -> by (apply Z.ltb_lt; lia). reflexivity.
         * rewrite G5 by lia. apply orb_true_r.
+      + rewrite Er. change (removelast ((i, i + chunk) :: (i + step, e') :: rest'))
+          with ((i, i + chunk) :: removelast ((i + step, e') :: rest')).
+        constructor; [cbn [snd]; lia|]. rewrite <- Er. exact G6.
   Qed.
 End Loop.
 
@@ -144,10 +155,12 @@ Proof.
       * intros j Hj. cbn [covered existsb fst snd].
         assert ((offset <=? j) = true) as -> by (apply Z.leb_le; lia).
         assert ((j <? stop) = true) as -> by (apply Z.ltb_lt; unfold stop; lia). reflexivity.
+      * cbn [removelast]. constructor.
+      * intro Hpos. constructor; [|constructor]. cbn [fst snd]. unfold stop. lia.
     + rewrite Z.geb_leb in Ege. apply Z.leb_gt in Ege. rewrite Z.min_l by lia.
       set (a := offset + initial - overlap).
       destruct (range_loop_good stop step chunk Hstep Hcs (S (Z.to_nat size)) a)
-        as [rest [Hrest [G1 [G2 [G3 [G4 G5]]]]]].
+        as [rest [Hrest [G1 [G2 [G3 [G4 [G5 G6]]]]]]].
       { unfold a, stop, initial, step in *. lia. }
       rewrite Hrest. exists ((offset, offset + initial) :: rest). split; [reflexivity|].
       destruct (G2 ltac:(unfold a, initial, step in *; lia)) as [e' [rest' [Er Hlast]]].
@@ -173,9 +186,14 @@ Proof.
         -- assert ((offset <=? j) = true) as -> by (apply Z.leb_le; lia).
            assert ((j <? offset + initial) = true) as -> by (apply Z.ltb_lt; lia). reflexivity.
         -- rewrite G5; [apply orb_true_r|]. unfold a, stop in *. lia.
+      * rewrite Er. change (removelast ((offset, offset + initial) :: (a, e') :: rest'))
+          with ((offset, offset + initial) :: removelast ((a, e') :: rest')).
+        constructor; [cbn [snd]; unfold stop in *; lia|]. rewrite <- Er. exact G6.
+      * intros _. constructor; [cbn [fst snd]; unfold initial, step in *; lia|].
+        eapply Forall_impl; [|exact G3]. intros [b e]. cbn [fst snd]. lia.
   - (* not aligned *)
     destruct (range_loop_good stop step chunk Hstep Hcs (S (Z.to_nat size)) offset)
-      as [rs [Hrs [G1 [G2 [G3 [G4 G5]]]]]].
+      as [rs [Hrs [G1 [G2 [G3 [G4 [G5 G6]]]]]]].
     { unfold stop. lia. }
     rewrite Hrs. exists rs. split; [reflexivity|]. constructor.
     + eapply Forall_impl; [|exact G3]. intros [b e]. cbn [fst snd]. intros [H1 [H2 [H3 [H4 H5]]]].
@@ -186,6 +204,8 @@ Proof.
     + rewrite <- Hov'. exact G4.
     + discriminate.
     + intros j Hj. apply G5. unfold stop. lia.
+    + exact G6.
+    + intros _. eapply Forall_impl; [|exact G3]. intros [b e]. cbn [fst snd]. lia.
 Qed.
 
 (* the boolean checker that [holds] evaluates accepts the model's output *)
